@@ -106,13 +106,19 @@ def run(ctx):
     astro = [e for e in info["entries"] if e["crate"] == "astronomical"]
     # model table
     model = {}
-    if ctx.model_ok:
+    model_failure = None
+    try:
+        if not ctx.model_ok:
+            raise fw.Failure("proof", "model not built")
         fw.coq_make(["Proofs/C06.vo"], ctx.log)
         res = fw.run_coq_cases("C06", HEADER, ['show_sep show_prog " ; " (List.filter (fun p => match p with (%s, _, _) => true | _ => false end) all_programs)' % o for o, _ in OPS], ctx.log)
         for (o, sym), line in zip(OPS, res):
             for item in line.split(" ; "):
                 l, r, *rest = item.split()
                 model[(sym, l, r)] = None if rest == ["None"] else rest[1]
+    except fw.Failure as f:
+        model_failure = f      # the search on the implementation goes on; the failure is reported by the proof step
+        model = {}
     evaluations = 0
     for crate_entries, tag, feats_list, dep_astro in ((main, "main", [("f64", ["std", "doc"]), ("dec", ["std", "doc", "fpdec"])], False),
                                                       (astro, "astro", [("f64", ["std"])], True)):
